@@ -610,4 +610,17 @@ int simk_clearenv(void) {
   return 0;
 }
 
+// strerror_r fills a buffer the library chose.  libc is not instrumented, so in the tsan lane the write is announced by hand:
+// a buffer two threads share then shows up as a race like any other shared memory.
+#if defined(SIM_TSAN)
+extern "C" void __tsan_write_range(void *addr, unsigned long size);
+#endif
+extern "C" int __xpg_strerror_r(int errnum, char *buf, size_t n);
+int simk___xpg_strerror_r(int errnum, char *buf, size_t n) {
+#if defined(SIM_TSAN)
+  if (buf && n) __tsan_write_range(buf, n < 64 ? n : 64);
+#endif
+  return __xpg_strerror_r(errnum, buf, n);
+}
+
 }  // extern "C"
